@@ -125,12 +125,27 @@ static const struct { const char *prefix; const char *cls; } diagtab[] = {
 
 static int in_nest;	/* > 0 while a callback runs a nested parse of another context */
 
+static void errfunc_to(cfg_t *cfg, const char *fmt, const char *tag);
+
 static void errfunc(cfg_t *cfg, const char *fmt, va_list ap)
+{
+	(void)ap;
+	errfunc_to(cfg, fmt, "G ");
+}
+
+/* a second error function (EF): after the application has replaced the function of a context, every diagnostic of
+ * a later operation on it - also from inside sections that earlier parses entered or created - goes to the new one */
+static void errfunc2(cfg_t *cfg, const char *fmt, va_list ap)
+{
+	(void)ap;
+	errfunc_to(cfg, fmt, "G2 ");
+}
+
+static void errfunc_to(cfg_t *cfg, const char *fmt, const char *tag)
 {
 	int i;
 	const char *cls = "other";
 
-	(void)ap;
 	if (quiet)
 		return;
 	for (i = 0; diagtab[i].prefix; i++)
@@ -138,7 +153,9 @@ static void errfunc(cfg_t *cfg, const char *fmt, va_list ap)
 			cls = diagtab[i].cls;
 			break;
 		}
-	fputs(in_nest ? "T nest G " : "G ", obs);
+	if (in_nest)
+		fputs("T nest ", obs);
+	fputs(tag, obs);
 	puthex(cfg->filename);
 	fprintf(obs, " %d %s\n", cfg->line, cls);
 }
@@ -459,7 +476,7 @@ static const char *type_name(cfg_type_t t)
 static cfg_opt_t *build_opts(int *pos, int depth)
 {
 	int start = *pos, n = 0, i, p;
-	cfg_opt_t *opts;
+	cfg_opt_t *opts, *prev_sub = NULL;
 
 	/* count siblings */
 	for (p = start; p < nrows && rows[p].depth >= depth; p++)
@@ -539,8 +556,18 @@ static cfg_opt_t *build_opts(int *pos, int depth)
 		if (strchr(r->cbs, 'r')) o->pf = cb_print;
 		if (strchr(r->cbs, 'I')) o->func = cfg_include;
 		if (strchr(r->cbs, 'U')) o->func = cb_func;
-		if (r->type == CFGT_SEC)
-			o->subopts = build_opts(pos, depth + 1);
+		if (r->type == CFGT_SEC) {
+			if (strchr(r->cbs, 'S') && prev_sub) {
+				/* the caller declares this section over the very same sub-option array as the section option
+				 * before it (a shared table): its own rows repeat that table for the model and are skipped here */
+				while (*pos < nrows && rows[*pos].depth > depth)
+					(*pos)++;
+				o->subopts = prev_sub;
+			} else {
+				o->subopts = build_opts(pos, depth + 1);
+			}
+			prev_sub = o->subopts;
+		}
 	}
 	return opts;
 }
@@ -1304,6 +1331,47 @@ static void run_line(char *line)
 		puthexn(buf, len);
 		fputs("\n", obs);
 		free(buf);
+	} else if (!strcmp(w[0], "EF") && n == 3) {
+		NEEDCTX(1);
+		cfg_set_error_function(CTX(1), atoi(w[2]) ? errfunc2 : errfunc);
+		fputs("R 0\n", obs);
+	} else if (!strcmp(w[0], "PI") && n == 3) {
+		/* cfg_print_indent() from a given starting level */
+		char *buf = NULL;
+		size_t len = 0;
+		FILE *f;
+
+		NEEDCTX(1);
+		f = open_memstream(&buf, &len);
+		cfg_print_indent(CTX(1), f, atoi(w[2]));
+		fclose(f);
+		fputs("B ", obs);
+		puthexn(buf, len);
+		fputs("\n", obs);
+		free(buf);
+	} else if (!strcmp(w[0], "POI") && n == 4) {
+		char *p = unhex(w[2], NULL);
+		cfg_opt_t *o;
+
+		NEEDCTX(1);
+		quiet = 1;
+		o = cfg_getopt(CTX(1), p);
+		quiet = 0;
+		if (o) {
+			char *buf = NULL;
+			size_t len = 0;
+			FILE *f = open_memstream(&buf, &len);
+
+			cfg_opt_print_indent(o, f, atoi(w[3]));
+			fclose(f);
+			fputs("B ", obs);
+			puthexn(buf, len);
+			fputs("\n", obs);
+			free(buf);
+		} else {
+			fputs("B -\n", obs);
+		}
+		free(p);
 	} else if (!strcmp(w[0], "PP") && n == 3) {
 		/* print context a to memory, parse that text into context b */
 		char *buf = NULL;
